@@ -119,6 +119,24 @@ Proof.
 Qed.
 Print Assumptions C17_aliased_assignment.
 
+(* the model getter returns the stored copy itself: m = gen.model; m.anis = x; gen.model = m (or update(model=m, ...)
+   with any of seed / period / mode_no) hands update the stored object; [step_gen true] = "model is self._model", which
+   update treats as changed: whatever the in-place edit was, a successful step ends in the invariant with the edited model *)
+Theorem C17_aliased_model : forall (T : Type) (O : NumOps T) (st : fstate) (m_edit : cmodel) (u : upd) (st' : fstate),
+  Inv O st -> wf_model m_edit -> u_model u = Some m_edit ->
+  step_gen O true (edit_model st m_edit) u = (st', Ok) -> Inv O st' /\ f_model st' = Some m_edit.
+Proof. exact @alias_model. Qed.
+Print Assumptions C17_aliased_model.
+
+(* delta_k and the mode grid are a function of the PRESENT model copy, period and mode counts only: whatever the history,
+   the state equals, in every component, the state of a generator freshly constructed from the present settings
+   (every number type) *)
+Theorem C17_equals_fresh : forall (T : Type) (O : NumOps T) (st st0 : fstate) (m : cmodel) (p : list T) (mn : list Z),
+  Inv O st -> f_model st = Some m -> f_period st = Some p -> f_mode_no st = Some mn ->
+  init O m p mn = (st0, Ok) -> st0 = st.
+Proof. intros T O st st0 m p mn. exact (equals_fresh O st m p mn st0). Qed.
+Print Assumptions C17_equals_fresh.
+
 (* construction establishes the invariant; every history of successful updates keeps it (every number type) *)
 Theorem C17_history_invariant : forall (T : Type) (O : NumOps T) (m0 : cmodel) (period0 : list T)
     (mode_no0 : list Z) (st0 : fstate) (us : list upd),
